@@ -232,9 +232,9 @@ def g_entries(rng, shape, style=None):
 
 class Prop:
     ID = "C11"
-    LEVEL = "exploration"
-    COQ_HEADER = ""
-    CHECK_FN = ""
+    LEVEL = "proof"
+    COQ_HEADER = "From TN Require Import Harness.H_C11.\nFrom Coq Require Import QArith.\nOpen Scope Q_scope.\n"
+    CHECK_FN = "check"
     RULE = ("(a) enumerated lattice: N=1,2 (3 sampled in quick): every format ({TT,CP}x{U,none} per mode) x every per-mode "
             "key entry kind (non-negative int, negative int, full slice, partial slice) x value kinds (scalar int/float/"
             "np.float64/0-d torch, dense ndarray / torch tensor, compressed TT / CP / mixed / with Tucker factors, all of the "
@@ -252,7 +252,7 @@ class Prop:
                    "an assignment on which the implementation raises is accepted iff the dense value of t is unchanged "
                    "afterwards (property's last sentence); the number of honoured steps is reported, not required",
                    "non-batch tensors only (D17 is batch-only)"]
-    THEOREMS = []
+    THEOREMS = ["C11_scalar", "C11_tensor", "C11_history"]
 
     def generate(self, rng, tier):
         quick = tier == "quick"
@@ -587,7 +587,48 @@ class Prop:
                                 json.dumps([(s["key"], s.get("vsub")) for s in case["steps"]]))
 
     def coq_term(self, case, res):
-        return None
+        """histories (at most 3 honoured steps) of scalar / dense-array assignments under default float64: the model
+        replays the steps the implementation honoured (a raised step leaves the state unchanged, which agree() checks
+        against the dense shadow) and must end in the implementation's final dense value."""
+        from fractions import Fraction
+        if not res.get("ok") or case.get("default_dtype") == "float32":
+            return None
+        case = self._case(case)
+        tj = case["t"]; shape = tshape(tj); N = len(shape)
+        if any(m["U"] is not None for m in tj["modes"]) and False:
+            return None
+        steps = []; last = None
+        for s, rec in zip(case["steps"], res["steps"]):
+            if "broken" in rec:
+                return None
+            last = rec
+            if rec["raised"]:
+                continue
+            if s["vkind"] not in ("int", "float", "np64", "torch0d", "np", "torch"):
+                return None
+            try:
+                key = np_key(shape, s["key"]["entries"])
+            except SpecError:
+                return None
+            regs = []
+            for k, I in zip(key, shape):
+                if isinstance(k, slice):
+                    st, sp, step = k.indices(I); cnt = len(range(st, sp, step))
+                    regs.append("(%d%%nat, %d%%nat, %d%%nat)" % (st if cnt else 0, step, cnt))
+                else:
+                    regs.append("(%d%%nat, 1%%nat, 1%%nat)" % (k % I))
+            if s["vkind"] in ("np", "torch"):
+                data = [Fraction(x).limit_denominator(10 ** 6) for x in s["value"]["data"]]
+                val = "VDense %s" % coq_list(data, qlit, "Q")
+            else:
+                val = "VScalar %s" % qlit(Fraction(s["value"]).limit_denominator(10 ** 6))
+            steps.append("mkStep [%s] (%s)" % ("; ".join(regs), val))
+        if last is None or not steps or len(steps) > 3:
+            return None
+        lit = lambda x: qlit(Fraction(x))
+        qd = lambda x: "(%d#%d)" % (round(x * 2 ** 40), 2 ** 40)
+        return "mkCase %s [%s] %s %s" % (coq_tensor(tj, lit, "Q"), "; ".join(steps), coq_natlist(last["shape"]),
+                                        coq_list(last["dense"], qd, "Q"))
 
     def shrink(self, case, fails):
         """drop steps of the history while the case still fails"""
